@@ -230,6 +230,24 @@ def body(chk: check.Check):
     nmax, tmax = (12, 16) if quick else (40, 32)
     res = tlc.run('AggPartition', f'SPECIFICATION Spec\nCONSTANTS\n MaxN = {nmax}\n MaxT = {tmax}\nINVARIANT Inv\n', workers=1, timeout=900)
     chk.add_tlc(f'AggPartition: engine partition rule for all N<={nmax}, T<={tmax}', res)
+    # the same rule for ALL n, t >= 1: proved with the TLA+ proof system (specs/AggPartitionProof.tla: blocks start at 1,
+    # end at n, follow each other, are non-empty, at most t, every row in exactly one)
+    import re
+    import shutil
+    import subprocess
+    if shutil.which('tlapm'):
+        wd = tlc.scratch_dir()
+        try:
+            shutil.copy(os.path.join(tlc.SPECS, 'AggPartitionProof.tla'), wd)
+            pr = subprocess.run(['tlapm', '--cleanfp', '--threads', '4', 'AggPartitionProof.tla'], cwd=wd, capture_output=True, text=True, timeout=1200)
+            m = re.search(r'All (\d+) obligations proved', pr.stdout + pr.stderr)
+            if not m:
+                raise tlc.MachineryError('tlapm did not prove AggPartitionProof: ' + (pr.stdout + pr.stderr)[-600:])
+            chk.extra['tlaps_obligations_proved_for_the_partition_rule_unbounded'] = int(m.group(1))
+        finally:
+            shutil.rmtree(wd, ignore_errors=True)
+    else:
+        chk.uncovered.append('tlapm not found: the unbounded proof of the partition rule was not re-checked')
     chk.extra['engine_partition_instances_checked'] = nmax * tmax
     for n, t in [(4, 2), (5, 3)]:
         res = tlc.run('AggGen', agg_cfg(n, t, True, props=False), extra_modules={'AggGen': agg_mod(n)}, workers=2, timeout=600)
